@@ -54,7 +54,11 @@ def setup_worker(ctx):
     monitors.install_python_hooks()
 
 
-def classify(P):
+def classify(P, operand_norm=0.0):
+    """operand_norm: for a matrix *returned* by a step, the 2-norm of the covariance that went in.  The
+    rounding error of P - K H P is relative to the operands, not to a result that cancellation made many
+    orders of magnitude smaller (a 1e-9 variance reading on an O(1) prior), so a returned matrix is judged
+    relative to the larger of the two."""
     P = np.asarray(P, dtype=float)
     if P.size == 0:
         return "valid", 0.0, 0.0
@@ -64,7 +68,7 @@ def classify(P):
     w = np.linalg.eigvalsh(Ps)
     # "up to rounding relative to their magnitude": the scale is the matrix's own norm (no floor at 1, so
     # that small-magnitude filters are judged by the same relative standard)
-    s = float(np.max(np.abs(w)))
+    s = max(float(np.max(np.abs(w))), float(operand_norm))
     if s == 0.0:
         return ("valid", 0.0, 0.0) if float(np.max(np.abs(P - P.T))) == 0.0 else ("invalid", np.inf, 0.0)
     asym = float(np.max(np.abs(P - P.T))) / s
@@ -141,6 +145,7 @@ def run_cpp(unit, ctx):
         x = {s: rng.gauss(0, 1) for s in names}
         P = P0.tolist()
         n_pred = n_upd = 0
+        norm_in = 0.0
         steps = 30 if ctx["tier"] == "quick" else 120
         for step in range(steps):
             if rng.random() < 0.6 or not eb.sensors:
@@ -151,6 +156,7 @@ def run_cpp(unit, ctx):
                 sn = rng.choice(eb.sensors)
                 cmd = eb.sm_cmd(sn, x, P, {r: rng.gauss(0, 1) for r in eb.readings[sn]})
                 kind = "SM"
+            norm_in = max(norm_in, float(np.linalg.norm(np.array(P, dtype=float), 2)) if len(P) else 0.0)
             res = eb.run([eb.cal_cmd(defn["calibration_map"]), cmd])
             if res["sanitizer"] or res["rc"] != 0 or len(res["lines"]) < 3:
                 R.add([K.V("cpp:sanitizer-or-crash", f"generated filter driver rc={res['rc']}: {res['err'][-1200:]}", defn=defn)])
@@ -162,7 +168,7 @@ def run_cpp(unit, ctx):
                 _same, x, P, _has, _y = eb.parse_sm(sn, res["lines"][1])
                 n_upd += 1
             R.evals += 1
-            cls, asym, lam = classify(np.array(P))
+            cls, asym, lam = classify(np.array(P), operand_norm=norm_in)
             R.stats.inc("cpp_returned_covariances_classified")
             R.stats.inc(f"cpp_returned_{cls}")
             R.stats.mx("cpp_returned_asym_rel", asym)
@@ -235,6 +241,7 @@ def run_unit(unit, ctx):
         if p_dtype:
             R.stats.inc(f"histories_started_from_{p_dtype}_covariance")
         n_pred = n_upd = 0
+        norm_in = 0.0
         completed = True
         for step in range(STEPS[ctx["tier"]]):
             last["raised_on"] = None
@@ -266,9 +273,12 @@ def run_unit(unit, ctx):
                                    f"symmetric PSD (relative asymmetry {asym_in:.3g}, min eigenvalue {lam_in:.3g})",
                                    defn=defn, matrix=cov.data.tolist(), family=fam, step=step, traceback=K.tb_text(e))])
                 break
+            # largest covariance norm met so far in this history: rounding noise left behind by an earlier,
+            # larger operand is carried along by every later step
+            norm_in = max(norm_in, float(np.linalg.norm(np.asarray(cov.data, dtype=float), 2)) if cov.data.size else 0.0)
             st, cov = r[0], r[1]
             R.evals += 1
-            cls, asym, lam = classify(cov.data)
+            cls, asym, lam = classify(cov.data, operand_norm=norm_in)
             R.stats.inc("returned_covariances_classified")
             R.stats.inc(f"returned_{cls}")
             R.stats.mx("returned_asym_rel", asym)
